@@ -15,8 +15,17 @@ import (
 	"golang.org/x/tools/go/ssa/ssautil"
 )
 
+// RepoDir is the checkout of the library under test. SSASYM_REPO=<dir> points the engine (load
+// and native replay) at another checkout, e.g. a scratch copy of /repo carrying a seeded change:
+// mutation-testing a harness then needs no write access to /repo.
+var RepoDir = func() string {
+	if d := os.Getenv("SSASYM_REPO"); d != "" {
+		return filepath.Clean(d)
+	}
+	return "/repo"
+}()
+
 const (
-	RepoDir    = "/repo"
 	RepoModule = "github.com/bronlabs/bron-crypto"
 	GoBinary   = "go1.26.8"
 	// BuildTags: purego (no BoringSSL in the sandbox) plus verif_e1, which guards the harness
